@@ -177,6 +177,10 @@ class HistogramBase(abc.ABC):
         self._meta_data = kwargs.copy()
         self.axis_names = tuple(axis_names or self.default_axis_names)
 
+    # Make numpy scalars / arrays on the left-hand side of an operator defer to
+    # our reflected methods (otherwise `np.int64(2) * h` degrades to a bare array).
+    __array_priority__ = 100
+
     # "Protected" attributes
     _binnings: List[BinningBase]
     _frequencies: np.ndarray
